@@ -696,6 +696,11 @@ class Verifier(Interp):
             if ok:
                 f = uf("pure_" + callee, *[t.sort() for t in flat], sort_of(con.returns))
                 res = P(con.returns, f(*flat))
+        elif con.pure and con.returns is not None and con.returns.kind == "tup" and all(is_prim(t) for t in con.returns.args):
+            flat = [v.term for pn in [p.arg for p in fi.node.args.args] for v in [env.get(pn)] if isinstance(v, P)]
+            if len(flat) == len(fi.node.args.args):
+                res = TupV([P(t, uf("pure_%s.%d" % (callee, i), *[x.sort() for x in flat], sort_of(t))(*flat))
+                            for i, t in enumerate(con.returns.args)])
         env2 = dict(env)
         env2["result"] = res
         saved_old = self.old_heap
@@ -704,7 +709,12 @@ class Verifier(Interp):
             def post():
                 for i, e in enumerate(con.ensures):
                     self.assume(self.formula(e), "post.%s.%d" % (callee, i))
+                for i, e in enumerate(con.trusted_ensures):
+                    self.used_assumptions.add("trusted clause on %s: %s" % (callee, e))
+                    self.assume(self.formula(e), "tpost.%s.%d" % (callee, i))
             self.spec_eval(post, env2)
+            if con.trusted:
+                self.used_assumptions.add("trusted contract (not verified): %s" % con.key)
         finally:
             self.old_heap = saved_old
         return res
@@ -810,6 +820,22 @@ class Verifier(Interp):
             et = ty.args[0]
             return lib.alloc(self, ty, P(SeqT(et), z3.Const(self.fresh_name(hint), sort_of(SeqT(et)))), "cell." + hint)
         return super().fresh(ty, hint)
+
+    def decide(self, cond):
+        con = self.cur_con
+        if con is not None and con.prune and not self.spec_mode:
+            c = z3.simplify(cond)
+            if not z3.is_true(c) and not z3.is_false(c):
+                for val, probe in ((False, c), (True, z3.Not(c))):
+                    s = z3.Solver()
+                    s.set("timeout", 300)
+                    s.add(*self.st.pc)
+                    s.add(probe)
+                    if str(s.check()) == "unsat":
+                        # the branch `probe` is infeasible: no fork, record the fact
+                        self.st.pc.append(z3.Not(probe) if val is False else c)
+                        return val
+        return super().decide(cond)
 
     def hint_terms(self):
         con = self.cur_con
@@ -1102,13 +1128,25 @@ class Verifier(Interp):
             m0 = None
             if inv.decreases:
                 m0 = self.spec_eval(lambda: self.term(self.ev(self.parse(inv.decreases)), INT), {})
+            saved_sw, self.stepwise = self.stepwise, (inv.stepwise or None)
+            self.stepwise_facts = []
             try:
                 self.exec_block(s.body)
             except ContinueSig:
                 pass
             except BreakSig:
                 return
-            self.prove(name + ".step", inv_formula(), meta={"kind": "loop-step"})
+            finally:
+                self.stepwise = saved_sw
+            f = inv_formula()
+            if self.stepwise_facts and isinstance(f, FAnd):
+                # the chain of per-statement equalities is given only to the clauses that talk about the
+                # conserved quantity (clause 0 by convention)
+                for lab, part in zip(f.labels, f.parts):
+                    self.prove(name + ".step." + lab, part, extra_hyps=self.stepwise_facts if lab == "0" else (),
+                               meta={"kind": "loop-step"})
+            else:
+                self.prove(name + ".step", f, meta={"kind": "loop-step"})
             if m0 is not None:
                 m1 = self.spec_eval(lambda: self.term(self.ev(self.parse(inv.decreases)), INT), {})
                 self.emit(name + ".decreases", z3.And(m0 >= 0, m1 < m0), meta={"kind": "termination"})
@@ -1213,6 +1251,76 @@ class Verifier(Interp):
                 self.prove("%s#post.%d" % (short, i), self.formula(e), meta={"kind": "post", "clause": e})
         self.spec_eval(post, env2)
         self.check_frame(con, env, short)
+        self.check_determinism(con, res, short)
+
+    def check_determinism(self, con, res, short):
+        """C13: the result and the post-state must not depend on a nondeterministic source (random numbers,
+        library-generated salts, set iteration order): syntactic occurrence check of the havoc'd symbols."""
+        if not self.nondet:
+            self.emit("%s#deterministic" % short, z3.BoolVal(True), meta={"kind": "determinism"})
+            return
+        terms = []
+
+        def collect(v):
+            if isinstance(v, P):
+                terms.append(v.term)
+            elif isinstance(v, StrOfInt):
+                terms.append(v.term)
+            elif isinstance(v, OptV):
+                terms.append(v.some)
+                collect(v.val)
+            elif isinstance(v, TupV):
+                for i in v.items:
+                    collect(i)
+            elif isinstance(v, MapV):
+                terms.extend([v.dom, v.val])
+            elif isinstance(v, BimapV):
+                collect(v.fwd)
+                collect(v.inv)
+            elif isinstance(v, ObjV):
+                for f in v.fields.values():
+                    collect(f)
+        collect(res)
+        for cellv in self.st.heap.values():
+            collect(cellv)
+        seen = set()
+        names = set()
+        stack = list(terms)
+        while stack:
+            x = stack.pop()
+            if x.get_id() in seen:
+                continue
+            seen.add(x.get_id())
+            if z3.is_app(x):
+                if x.num_args() == 0 and x.decl().kind() == z3.Z3_OP_UNINTERPRETED:
+                    names.add(x.decl().name())
+                stack.extend(x.children())
+        # let-bound names: follow their definitions
+        changed = True
+        defs = {}
+        for h in self.st.pc:
+            if z3.is_eq(h) and z3.is_app(h.arg(0)) and h.arg(0).num_args() == 0:
+                defs[h.arg(0).decl().name()] = h.arg(1)
+        expanded = set()
+        while changed:
+            changed = False
+            for n in list(names):
+                if n in defs and n not in expanded:
+                    expanded.add(n)
+                    st2 = [defs[n]]
+                    while st2:
+                        x = st2.pop()
+                        if z3.is_app(x):
+                            if x.num_args() == 0 and x.decl().kind() == z3.Z3_OP_UNINTERPRETED:
+                                if x.decl().name() not in names:
+                                    names.add(x.decl().name())
+                                    changed = True
+                            st2.extend(x.children())
+        bad = [src for src, sym in self.nondet if sym.decl().name() in names]
+        for src in sorted(set(bad)):
+            self.emit("%s#deterministic[%s]" % (short, src), z3.BoolVal(False), meta={"kind": "determinism"})
+        if not bad:
+            self.emit("%s#deterministic" % short, z3.BoolVal(True), meta={"kind": "determinism"})
 
     def check_frame(self, con, env, short):
         """Everything not listed in `modifies` must be unchanged (heap cells reachable at entry)."""
